@@ -427,18 +427,34 @@ func main() {
 	jwt.TimeFunc = func() time.Time { return time.Unix(now(), 0) }
 	apis := map[bool]*api{true: startAPI(true), false: startAPI(false)}
 
-	run := func(c *Case) {
-		ap := apis[false]
+	hung := 0
+	run := func(c *Case, idx int) {
+		ae := false
 		for _, o := range c.Ops {
 			if o.K == "HSession" && o.AE {
-				ap = apis[true]
+				ae = true
 			}
 		}
+		ap := apis[ae]
 		ap.reset()
 		atomic.StoreInt64(&clock, c.T0)
 		c.Outs = nil
-		for _, o := range c.Ops {
-			c.Outs = append(c.Outs, ap.exec(o))
+		for i, o := range c.Ops {
+			// every operation runs under a watchdog: a store left locked must not hang the harness
+			done := make(chan Out, 1)
+			go func(o Op) { done <- ap.exec(o) }(o)
+			select {
+			case out := <-done:
+				c.Outs = append(c.Outs, out)
+			case <-time.After(4 * time.Second):
+				hung++
+				c.Ops = c.Ops[:i+1]
+				c.Outs = append(c.Outs, Out{K: "S", S: -1})
+				res.Violate(lib.Violation{Clause: "operation-never-answers", Case: idx,
+					Detail: fmt.Sprintf("op %d (%s) did not return within 4 s; history so far %v", i, o.K, c.Ops), Replay: *c, Key: "operation-never-answers:" + o.K})
+				apis[ae] = startAPI(ae) // the old instance may be wedged for good
+				return
+			}
 		}
 	}
 
@@ -458,13 +474,17 @@ func main() {
 		}
 	}
 	for i := range cases {
+		if hung >= 3 { // the store keeps wedging: stop here, what was found is reported
+			cases = cases[:i]
+			break
+		}
 		if cases[i].Kind != "realtime" {
-			run(&cases[i])
+			run(&cases[i], i)
 		}
 	}
 
 	// one real-time history through relay.Relay (covers the prune loop wiring in relay.go)
-	if a.Replay == "" {
+	if a.Replay == "" && hung == 0 {
 		jwt.TimeFunc = time.Now
 		cases = append(cases, realtime())
 	}
